@@ -191,7 +191,7 @@ func (c03) Exec(d any) mon.Result {
 func (c07) ID() string { return "C07" }
 func (c07) Rule() string {
 	return "jpegls/nearlossless.Encode(NEAR) -> Decode; per sample |decoded-source| <= NEAR and 0 <= decoded <= 2^P-1, reported NEAR and geometry equal, NEAR=0 exact. " +
-		"cases: every NEAR in 0..min(255,(2^P-1)/2) for every P in 2..16 (quick: every NEAR at P in {2,3,4,8,12,16}, sampled elsewhere) x components {1,3} x content classes (edges within NEAR of 0/MAXVAL, ramps with step 2*NEAR+1 and 2*NEAR, noise, two-level, runs with outliers); (runlimit) flat run, one outlier sweeping the whole range in both polarities, NEAR 0..3(7) (run-interruption code around its escape limit). " +
+		"cases: every NEAR in 0..min(255,(2^P-1)/2) for every P in 2..16 (quick: every NEAR at P in {2,3,4,8,12,16}, sampled elsewhere) x components {1,3} x content classes (edges within NEAR of 0/MAXVAL, ramps with step 2*NEAR+1 and 2*NEAR, noise, two-level, runs with outliers); (codec) 2..4 frames with flat areas in one Encode call of the registered .81 codec (NEAR as parameter), each frame decoded by the codec and by nearlossless.Decode; (afterlse) the round trip right after decoding foreign streams that carry an LSE segment with other thresholds; (runlimit) flat run, one outlier sweeping the whole range in both polarities, NEAR 0..3(7) (run-interruption code around its escape limit). " +
 		"non-trivial: encoder accepted and every sample was compared; distinct = distinct descriptor"
 }
 func (c07) Assumptions() []string                   { return []string{"self round trip only"} }
@@ -257,6 +257,28 @@ func (c07) Build(tier string, seed uint64) []any {
 	for _, x := range rl {
 		cs = append(cs, x)
 	}
+	// (codec) 2..4 frames in one Encode call of the registered .81 codec with NEAR passed as a
+	// parameter; frames with flat areas (run mode) so that adaptive state would carry over
+	// (afterlse) the round trip right after nearlossless.Decode calls on foreign streams that carry
+	// an LSE preset-parameters segment with other thresholds (one complete, one cut behind its SOS)
+	nCodec := 60
+	if th {
+		nCodec = 900
+	}
+	for k := 0; k < nCodec; k++ {
+		r := gen.Sub(seed, "C07", "codec", k)
+		p := gen.Pick(r, 8, 8, 12, 16, 2+r.Intn(15))
+		near := gen.Pick(r, 0, 1, 2, 3, 3, r.Intn(maxNear(p)+1))
+		if near > maxNear(p) {
+			near = maxNear(p)
+		}
+		g := "codec"
+		if k%3 == 2 {
+			g = "afterlse"
+		}
+		cs = append(cs, &imgCase{Gen: g, W: 4 + r.Intn(60), H: 4 + r.Intn(40), C: gen.Pick(r, 1, 1, 3), P: p, Sel: near,
+			Class: gen.Pick(r, "runs", "runs", "twolevel", "smooth", "edges", "lowent", "runend", "noise"), Aux: 2 + r.Intn(3), CSeed: r.U64()})
+	}
 	for j, g := range areaSizes(th, seed) {
 		for k, pn := range [][2]int{{8, 1}, {8, 3}, {12, 2}, {16, 1}, {16, 255}} {
 			if !th && (j+k+int(seed))%2 == 0 {
@@ -292,9 +314,119 @@ func (c07) Exec(d any) mon.Result {
 		}
 		return res
 	}
+	if c.Gen == "codec" {
+		r := c07Codec(c, near)
+		r.Cells = res.Cells
+		return r
+	}
+	if c.Gen == "afterlse" {
+		c07ForeignLSE(c)
+	}
 	r := c07One(c, c.samples(), near)
 	r.Cells = res.Cells
 	return r
+}
+
+// c07ForeignLSE decodes two foreign JPEG-LS streams carrying an LSE preset-parameters segment
+// (ID 1) with non-default thresholds: a valid 1x1 stream (for a single sample the thresholds take no
+// part in the coding) and the same stream cut right behind its scan header.  Outcomes are not judged.
+func c07ForeignLSE(c *imgCase) {
+	defer func() { _ = recover() }()
+	r := gen.New(gen.Mix(c.CSeed, 0x15e))
+	px := gen.Pack([]int{r.Intn(1 << uint(c.P))}, c.P)
+	st, err := jlsn.Encode(px, 1, 1, 1, c.P, c.Sel)
+	if err != nil {
+		return
+	}
+	max := (1 << uint(c.P)) - 1
+	t1 := 1 + c.Sel + r.Intn(4)
+	t2 := t1 + 1 + r.Intn(6)
+	t3 := t2 + 1 + r.Intn(12)
+	if t3 > max {
+		t1, t2, t3 = c.Sel+1, c.Sel+1, c.Sel+1
+	}
+	for i := 2; i+3 < len(st); i++ {
+		if st[i] == 0xFF && st[i+1] == 0xDA {
+			lse := []byte{0xFF, 0xF8, 0, 13, 1, byte(max >> 8), byte(max), byte(t1 >> 8), byte(t1), byte(t2 >> 8), byte(t2), byte(t3 >> 8), byte(t3), 0, 64}
+			with := append(append(append([]byte(nil), st[:i]...), lse...), st[i:]...)
+			soslen := int(st[i+2])<<8 | int(st[i+3])
+			_, _, _, _, _, _, _ = jlsn.Decode(with)
+			cut := i + len(lse) + 2 + soslen
+			if cut <= len(with) {
+				_, _, _, _, _, _, _ = jlsn.Decode(with[:cut])
+			}
+			_, _, _, _, _, _ = jlsl.Decode(with)
+			return
+		}
+	}
+}
+
+// c07Codec judges a multi-frame round trip through the registered .81 codec.
+func c07Codec(c *imgCase, near int) mon.Result {
+	res := mon.Hold()
+	ba := 8
+	if c.P > 8 {
+		ba = 16
+	}
+	cd := Codec(".81")
+	info := FrameInfo(c.W, c.H, ba, c.P, c.C, 0, 0)
+	var frames [][]byte
+	var src [][]int
+	classes := []string{c.Class, "runs", "noise", "twolevel"}
+	for f := 0; f < c.Aux; f++ {
+		s := gen.Content(gen.New(gen.Mix(c.CSeed, uint64(f))), classes[f%len(classes)], c.W, c.H, c.C, c.P, near)
+		src = append(src, s)
+		frames = append(frames, gen.Pack(s, c.P))
+	}
+	p := cd.GetDefaultParameters()
+	p.SetParameter("near", near)
+	enc := NewPD(info)
+	if err := cd.Encode(NewPD(info, frames...), enc, p); err != nil {
+		return mon.Violation("encode-error", err.Error())
+	}
+	if len(enc.Frames) != len(frames) {
+		return mon.Violation("frame-count", fmt.Sprintf("%d encoded frames for %d inputs", len(enc.Frames), len(frames)))
+	}
+	dec := NewPD(info)
+	if err := cd.Decode(NewPD(info, enc.Frames...), dec, nil); err != nil {
+		return mon.Violation("decode-error", err.Error())
+	}
+	if len(dec.Frames) != len(frames) {
+		return mon.Violation("frame-count", fmt.Sprintf("%d decoded frames for %d inputs", len(dec.Frames), len(frames)))
+	}
+	max := (1 << uint(c.P)) - 1
+	for f := range frames {
+		out, dw, dh, dc, dp, dn, err := jlsn.Decode(enc.Frames[f])
+		if err != nil {
+			return mon.Violation("decode-error", fmt.Sprintf("frame %d: %v", f, err))
+		}
+		if dw != c.W || dh != c.H || dc != c.C || dp != c.P {
+			return mon.Violation("geometry", fmt.Sprintf("frame %d: decoder reports %dx%d c=%d P=%d, expected %dx%d c=%d P=%d", f, dw, dh, dc, dp, c.W, c.H, c.C, c.P))
+		}
+		if dn != near {
+			return mon.Violation("near-misreported", fmt.Sprintf("frame %d: decoder reports NEAR=%d, requested %d", f, dn, near))
+		}
+		for _, o := range [][]byte{out, dec.Frames[f]} {
+			if len(o) != len(frames[f]) {
+				return mon.Violation("length", fmt.Sprintf("frame %d: decoded %d bytes, expected %d", f, len(o), len(frames[f])))
+			}
+			got := gen.Unpack(o, c.P)
+			for i, w := range src[f] {
+				e := got[i] - w
+				if e < 0 {
+					e = -e
+				}
+				if got[i] > max {
+					return mon.Violation("out-of-range", fmt.Sprintf("frame %d sample %d decoded %d > MAXVAL %d", f, i, got[i], max))
+				}
+				if e > near {
+					return mon.Violation("near-bound-exceeded", fmt.Sprintf("frame %d of %d (codec-level call) sample %d: decoded %d, source %d, |err|=%d > NEAR=%d", f, len(frames), i, got[i], w, e, near))
+				}
+			}
+		}
+		res.AddFeat("codec_frames", 1)
+	}
+	return res
 }
 
 // c07One judges one image.
